@@ -4,32 +4,39 @@
    index row*9+col, which is also the index of its variable (SudokuSolver::new creates the variables
    row by row, nothing else creates variables).
 
-   What the code does, in order (line numbers of sudoku.rs):
-   * `new` (174-223): one variable per cell — `model.int(clue, clue)` for a clue (a SINGLETON DOMAIN, no
-     equality constraint is posted for clues), `model.int(1, 9)` for an empty cell; candidate sets
-     `single(clue)` / `full()`; then the 27 `alldiff`s (rows 0-8, columns 0-8, boxes by box_row then
+   What the code does, in order (line numbers of sudoku.rs after the repair COMMIT_sudoku_clues):
+   * `new` (176-228): one variable per cell — `model.int(clue, clue)` for a non-zero cell (a SINGLETON
+     DOMAIN, no equality constraint is posted for clues), `model.int(1, 9)` for an empty cell; candidate
+     sets `full()` for an empty cell, `single(clue)` for a clue 1..9, the EMPTY set `new()` for any other
+     value (`is_valid_clue`, 231); then the 27 `alldiff`s (rows 0-8, columns 0-8, boxes by box_row then
      box_col: PropIds 0..26, posted immediately through `props.all_different`); then
      `update_candidates`.
-   * `update_candidates` / `is_candidate_valid` (254-299): the candidates of every EMPTY cell are
+   * `update_candidates` / `is_candidate_valid` (273-318): the candidates of every EMPTY cell are
      recomputed FROM THE ORIGINAL PUZZLE ONLY (digit d is kept iff no other cell of the row, the column
      and the box holds the clue d).  Nothing the techniques derived is ever taken into account.
-   * `apply_advanced_techniques` (303-316): naked singles, hidden singles (rows, columns, boxes), naked
+   * `apply_advanced_techniques` (322-335): naked singles, hidden singles (rows, columns, boxes), naked
      pairs (rows, columns, boxes); all three always run (`|=`); if any made progress the candidate table
      is recomputed by `update_candidates` — which throws away every elimination the naked pairs made.
      Naked / hidden singles do not touch the candidate table; each found cell posts
      `model.props.equals(var, Val::int(digit))` (an `Eq` propagator, next free PropId).
-   * `solve` (955-1002): `while apply_advanced_techniques() && iterations < 10 { iterations += 1 }`
+   * `solve` (974-1033): FIRST `has_invalid_clue` (237: some cell of the original puzzle is neither 0 nor
+     1..9) => `solution: None` at once; otherwise
+     `while apply_advanced_techniques() && iterations < 10 { iterations += 1 }`
      (at most 11 calls; since the table at the start of every round is the same, every round posts the
      same equalities again), then `Model::solve` (validation, root propagation, depth-first search,
      first solution), any error (validation, NoSolution, timeout, memory) becomes `solution: None`.
-   * `solve_sudoku` (1162) = `SudokuSolver::new(p).solve().solution`; `solve_sudoku_string` (1175) parses
-     first (`parse_string`, 1084) and maps a parse error to None.
+   * `solve_sudoku` (1194) = `SudokuSolver::new(p).solve().solution`; `solve_sudoku_string` (1207) parses
+     first (`parse_string`, 1115) and maps a parse error to None.
 
-   Clues outside 0..9: the documented input domain is 0..9.  `SudokuCandidateSet::single(clue)` is a
-   `debug_assert!(1 <= clue <= 9)` (a debug build panics) and a wrapping 16-bit shift in release builds;
-   candidate sets of clue cells are never read by the techniques.  The model keeps `[clue]` as the
-   candidate list of a clue cell and the singleton domain `[clue]` whatever the value, which is what a
-   release build does; the theorems that need it carry the premise `clues_ok p`. *)
+   Clues outside 0..9 (the argument type [[i32; 9]; 9] admits them).  Before COMMIT_sudoku_clues there was
+   no range check: `new` called `SudokuCandidateSet::single(clue)` (a `debug_assert!(1 <= clue <= 9)`: a
+   debug build panicked; a wrapping 16-bit shift in release builds) and `solve` searched the model with
+   the singleton domain `[clue]`, returning a "solution" that contains the foreign value.  That behaviour
+   (of the release build) is kept as `solve_sudoku_prefix` for the refutation theorem
+   `sudoku_sound_out_of_range_refuted`; `solve_sudoku` is the repaired function: the range test of
+   `solve` first, then the same pipeline.  `new` itself is unchanged on the model side except for the
+   candidate set of such a cell (empty; candidate sets of clue cells are never read by the techniques),
+   the variable keeps the singleton domain `[clue]` whatever the value. *)
 Require Import Selen.Model.Prelude Selen.Model.Dom Selen.Model.Views Selen.Model.PropDefs.
 Require Import Selen.Model.Props.Basic Selen.Model.Propagate Selen.Model.Search Selen.Model.Limits.
 Require Import Selen.Model.Gac Selen.Model.Props.AllDiff.
@@ -68,7 +75,8 @@ Definition agrees (p : puzzle) (g : grid) : Prop :=
   forall i, (i < 81)%nat -> pcell p i <> 0 -> pcell g i = pcell p i.
 Definition completion (p : puzzle) (g : grid) : Prop := valid_sudoku g /\ agrees p g.
 
-(* documented input domain of solve_sudoku: 81 cells, each 0..9 *)
+(* documented input domain of solve_sudoku: 81 cells, each 0..9; `clues_okb p` = !has_invalid_clue()
+   (a cell passes iff it is 0 or is_valid_clue) *)
 Definition clues_okb (p : puzzle) : bool := forallb (fun v => (0 <=? v) && (v <=? 9)) p.
 Definition clues_ok (p : puzzle) : Prop := forall i, (i < 81)%nat -> 0 <= pcell p i <= 9.
 
@@ -96,7 +104,7 @@ Definition cand_valid (p : puzzle) (i : nat) (d : Z) : bool :=
   unit_free p (row_cells r) i d && unit_free p (col_cells c) i d && unit_free p (box_cells (r / 3) (c / 3)) i d.
 
 Definition init_cands (p : puzzle) : cands :=
-  map (fun i => if pcell p i =? 0 then digits else [pcell p i]) cells.
+  map (fun i => if pcell p i =? 0 then digits else if in19 (pcell p i) then [pcell p i] else []) cells.
 Definition update_candidates (p : puzzle) (cs : cands) : cands :=
   map (fun i => if pcell p i =? 0 then filter (cand_valid p i) digits else sget cs i) cells.
 (* the table SudokuSolver::new leaves behind *)
@@ -214,10 +222,16 @@ Definition run_model (slv : list prop -> store -> option (option store)) (s : st
        | Some (Some t) => Some (Some (grid_of_store t))
        end.
 
-Definition solve_sudoku (p : puzzle) : option (option grid) :=
+(* before COMMIT_sudoku_clues: no range test in `solve` (release-build behaviour; kept for the refutation) *)
+Definition solve_sudoku_prefix (p : puzzle) : option (option grid) :=
   run_model (solve fifo) (sudoku_store p) (sudoku_props p).
-Definition solve_sudoku_exec (p : puzzle) : option (option grid) :=
+Definition solve_sudoku_prefix_exec (p : puzzle) : option (option grid) :=
   run_model first_solution (sudoku_store p) (sudoku_props p).
+(* SudokuSolver::solve: `if self.has_invalid_clue() { return SudokuResult { solution: None, .. } }` first *)
+Definition solve_sudoku (p : puzzle) : option (option grid) :=
+  if negb (clues_okb p) then Some None else solve_sudoku_prefix p.
+Definition solve_sudoku_exec (p : puzzle) : option (option grid) :=
+  if negb (clues_okb p) then Some None else solve_sudoku_prefix_exec p.
 (* solve_sudoku_string *)
 Definition solve_sudoku_string (bs : list nat) : option (option grid) :=
   match parse_string bs with None => Some None | Some p => solve_sudoku p end.
